@@ -580,7 +580,10 @@ def run_method(ctx, desc, ivals, pvals_fn, fam, pending):
         ctx.case((json.dumps(desc, sort_keys=True), "build"), nontrivial=False)
         pending.append((desc, [("vi", L.vi(0), ("build", mc.build_err), True, False)], fam))
         return
-    back = L.desc_of_cm(mc.cm)
+    try:
+        back = L.desc_of_cm(mc.cm)
+    except Exception as e:  # noqa: the attributes are read from the code under test
+        back = {"unreadable": type(e).__name__}
     if back != L.normalise(desc):
         ctx.disagree("desc_of_cm", {"desc": desc}, json.dumps(L.normalise(desc))[:500], json.dumps(back)[:500])
     if mc.inj:
